@@ -284,7 +284,14 @@ func selOf(e ast.Expr) (x, sel string, ok bool) {
 	if !ok {
 		return "", "", false
 	}
-	id, ok := s.X.(*ast.Ident)
+	recv := s.X
+	// `(&x).m()` is what `x.m()` abbreviates for an addressable x and a pointer-receiver method
+	if p, isParen := recv.(*ast.ParenExpr); isParen {
+		if u, isAddr := p.X.(*ast.UnaryExpr); isAddr && u.Op == token.AND {
+			recv = u.X
+		}
+	}
+	id, ok := recv.(*ast.Ident)
 	if !ok {
 		return "", "", false
 	}
@@ -539,7 +546,7 @@ func extractAsync(m *method) *skel {
 			}
 			s.extra = append(s.extra, src(st))
 		case *ast.ExprStmt:
-			if x, mm, args, ok := methodCall(st.X); ok && x == c.wg && c.wg != "" {
+			if x, mm, args, ok := methodCall(st.X); ok && (x == c.wg || x == "(&"+c.wg+")") && c.wg != "" {
 				if mm == "Add" && len(args) == 1 && !seenLoop && !seenAdd {
 					seenAdd = true
 					s.add = "beforeLoop"
@@ -563,7 +570,7 @@ func extractAsync(m *method) *skel {
 			for _, inner := range st.Body.List {
 				switch inner := inner.(type) {
 				case *ast.ExprStmt:
-					if x, mm, args, ok := methodCall(inner.X); ok && x == c.wg && c.wg != "" &&
+					if x, mm, args, ok := methodCall(inner.X); ok && (x == c.wg || x == "(&"+c.wg+")") && c.wg != "" &&
 						mm == "Add" && len(args) == 1 && !seenAdd && !seenGo {
 						seenAdd = true
 						s.add = "insideLoop"
